@@ -47,25 +47,49 @@ def search(ctx):
             by_scheme.setdefault(d["scheme"], []).append((d["a"], d["b"]))
     for name, pairs in by_scheme.items():
         cls = S.vclass(name)
-        for (a, b) in pairs[:6]:
+        rng = ctx.rng("c01-search", name)
+
+        def pool_of(prs, cap):
             texts = []
-            for s in (a, b):
-                for i in range(len(s), 0, -1):
-                    if s[:i] not in texts:
-                        texts.append(s[:i])
+            for (a, b) in prs:
+                for s in (a, b):
+                    cuts = [len(s)] + [i for i in range(len(s) - 1, 0, -1) if s[i] in "-+~_^.:"] + list(range(len(s) - 1, 0, -1))
+                    for i in cuts:
+                        if s[:i] not in texts:
+                            texts.append(s[:i])
+            # recombination: the tails of the disagreeing texts (from a separator on) behind a few plain versions
+            tails = []
+            for (a, b) in prs:
+                for s in (a, b):
+                    for i, ch in enumerate(s):
+                        if ch in "-+~_^:" and s[i:] not in tails:
+                            tails.append(s[i:])
+            bases = [t for t, _ in A.valid_pool(name, rng, 3)] + ["1.0", "2"]
+            recomb = []
+            for base in bases:
+                recomb.append(base)
+                for tl in tails[:6]:
+                    recomb.append(base + tl)
+            texts = recomb[:cap // 2] + [t for t in texts if t not in recomb]
             pool = []
             for t in texts:
                 try:
                     pool.append((t, cls(t)))
                 except Exception:  # noqa: BLE001
                     pass
-                if len(pool) >= 24:
+                if len(pool) >= cap:
                     break
-            rng = ctx.rng("c01-search", name, a, b)
+            return pool
+        # each disagreeing pair with all its prefixes, then the pairs together (cut at separators first)
+        for pr in pairs[:8]:
+            pool = pool_of([pr], 24)
             pool += [p for p in A.valid_pool(name, rng, 6) if p[0] not in [t for t, _ in pool]]
             _laws(ctx, 0, only=name, pool=pool, stream="laws-search:" + name)
             if ctx.rep.violations:
                 return
+        _laws(ctx, 0, only=name, pool=pool_of(pairs[:12], 45), stream="laws-search:" + name)
+        if ctx.rep.violations:
+            return
     _laws(ctx, 70)
 
 
